@@ -1,12 +1,68 @@
 /-
   C16 - linesplit word-wraps without losing, reordering or restyling words.
-  (header completed below)
+
+  STATUS: PARTIAL. The full statement is `C16_full_statement` below (kept visible, not proved). Proved, for every
+  Unicode environment `u` (`isSpace` = the regex class `\s`), every FmtStr in any run layout:
+  * `C16_len_partial`      - no returned line is longer than `columns` (every `columns`);
+  * `C16_total_partial`    - for `columns ≥ 1` nothing is raised (the words the scanner extracts are non-empty, so
+                             `lines[-1]` exists; every gap has a run, so `shared_atts` is defined);
+  * `C16_wordless_partial` - empty or whitespace-only text gives `[]`.
+  Missing (covered on every run by the exhaustive correspondence + oracle of harness/props/c16.py only): that the
+  scanner's words/gaps are the maximal non-space/space runs of `cells f` (`specWords`), and the loop-level facts
+  `Greedy` expresses - the greedy fit rule `len cur + 1 + len w ≤ columns`, chopping of long words into
+  full-length pieces, words kept in order with their formatting, each joining space being one `' '` carrying
+  the attributes common to the whole gap (`gapAtts`), no line starting or ending with whitespace.
 -/
 import Curtsies.Proofs.Width
 import Curtsies.Proofs.Slice
 namespace Curtsies
 
-theorem getslice_cells' (f : FmtStr) (s e : Nat) :
+/-! ### specification side (independent of the model) -/
+
+/-- Maximal runs of non-whitespace cells, each with the whitespace run that precedes it (`gap`, `word` are the
+    runs being read). Trailing whitespace is dropped. -/
+def specWords (u : UEnv) : List Cell → List Cell → List Cell → List (List Cell × List Cell)
+  | [], gap, word => if word.isEmpty then [] else [(gap, word)]
+  | x :: rest, gap, word =>
+    if u.isSpace x.1 then
+      (if word.isEmpty then specWords u rest (gap ++ [x]) [] else (gap, word) :: specWords u rest [x] [])
+    else specWords u rest gap (word ++ [x])
+
+/-- the attributes every cell of the gap has (with the same value) -/
+def gapAtts : List Cell → Atts
+  | [] => {}
+  | x :: rest => rest.foldl (fun a y => a.inter y.2) x.2
+
+/-- `w` cut into full-length pieces `full` and a non-empty last piece -/
+def Chopped (columns : Nat) (w : List Cell) (full : List (List Cell)) (last : List Cell) : Prop :=
+  w = full.flatten ++ last ∧ (∀ p ∈ full, p.length = columns) ∧ 0 < last.length ∧ last.length ≤ columns
+
+/-- `Greedy columns cur rest out`: with `cur` the line being filled, the remaining (word, joining-space
+    attributes) pairs produce the lines `out`. A word joins the current line - after ONE space - iff it fits;
+    otherwise the line is closed and the word starts a new one, cut into full-length pieces if it is too long. -/
+inductive Greedy (columns : Nat) : List Cell → List (List Cell × Atts) → List (List Cell) → Prop
+  | done (cur : List Cell) : Greedy columns cur [] [cur]
+  | join {cur w : List Cell} {a : Atts} {rest : List (List Cell × Atts)} {out : List (List Cell)} :
+      cur.length + 1 + w.length ≤ columns →
+      Greedy columns (cur ++ (' ', a) :: w) rest out → Greedy columns cur ((w, a) :: rest) out
+  | wrap {cur w last : List Cell} {a : Atts} {rest : List (List Cell × Atts)} {full out : List (List Cell)} :
+      ¬ (cur.length + 1 + w.length ≤ columns) → Chopped columns w full last →
+      Greedy columns last rest out → Greedy columns cur ((w, a) :: rest) (cur :: full ++ out)
+
+/-- The full statement of C16 (NOT proved; see the header). -/
+def C16_full_statement : Prop :=
+  ∀ (u : UEnv) (f : FmtStr) (columns : Nat), 1 ≤ columns → u.isSpace ' ' = true →
+    ∃ lines, linesplit u f columns = .ok lines ∧
+      match specWords u (cells f) [] [] with
+      | [] => lines = []
+      | (_, w0) :: rest =>
+        ∃ full last out, Chopped columns w0 full last ∧
+          Greedy columns last (rest.map fun p => (p.2, gapAtts p.1)) out ∧
+          lines.map cells = full ++ out
+
+/-! ### proofs of the parts -/
+
+private theorem getslice_cells' (f : FmtStr) (s e : Nat) :
     cells (getslice f s e) = ((cells f).take e).drop s := by
   have := getitemLoop_cells s e f 0
   simp only [Nat.sub_zero] at this
@@ -18,13 +74,13 @@ theorem getslice_cells' (f : FmtStr) (s e : Nat) :
     rw [this]; rfl
   · rw [if_neg h, this]
 
-theorem len_getslice (f : FmtStr) (s e : Nat) : len (getslice f s e) = min e (len f) - s := by
+private theorem len_getslice (f : FmtStr) (s e : Nat) : len (getslice f s e) = min e (len f) - s := by
   rw [← cells_length, getslice_cells', List.length_drop, List.length_take, cells_length]
 
-theorem len_append (f g : FmtStr) : len (f ++ g) = len f + len g := by
+private theorem len_append (f g : FmtStr) : len (f ++ g) = len f + len g := by
   rw [← cells_length, cells_append, List.length_append, cells_length, cells_length]
 
-theorem wordToLines_len {columns : Nat} {word : FmtStr} {ls : List FmtStr}
+private theorem wordToLines_len {columns : Nat} {word : FmtStr} {ls : List FmtStr}
     (h : wordToLines columns word = .ok ls) : ∀ l ∈ ls, len l ≤ columns := by
   unfold wordToLines at h
   by_cases hc : columns = 0
@@ -37,7 +93,7 @@ theorem wordToLines_len {columns : Nat} {word : FmtStr} {ls : List FmtStr}
     rw [len_getslice, Nat.mul_succ]
     omega
 
-theorem linesplitLoop_len (columns : Nat) (pairs : List (FmtStr × FmtStr)) (lines result : List FmtStr)
+private theorem linesplitLoop_len (columns : Nat) (pairs : List (FmtStr × FmtStr)) (lines result : List FmtStr)
     (hl : ∀ l ∈ lines, len l ≤ columns) (h : linesplitLoop columns lines pairs = .ok result) :
     ∀ l ∈ result, len l ≤ columns := by
   induction pairs generalizing lines with
@@ -79,7 +135,7 @@ theorem linesplitLoop_len (columns : Nat) (pairs : List (FmtStr × FmtStr)) (lin
           · exact wordToLines_len hw l hl2
 
 /-- no line is longer than `columns` -/
-theorem C16_len (u : UEnv) (f : FmtStr) (columns : Nat) (lines : List FmtStr)
+theorem C16_len_partial (u : UEnv) (f : FmtStr) (columns : Nat) (lines : List FmtStr)
     (h : linesplit u f columns = .ok lines) : ∀ l ∈ lines, len l ≤ columns := by
   unfold linesplit at h
   simp only [] at h
@@ -94,4 +150,226 @@ theorem C16_len (u : UEnv) (f : FmtStr) (columns : Nat) (lines : List FmtStr)
       rw [hl] at h
       simp only [bind, Except.bind] at h
       exact linesplitLoop_len columns _ ls lines (wordToLines_len hl) h
+/-- matches are ordered, non-empty and inside `[lo, hi]` -/
+def Chain (lo : Nat) : List (Nat × Nat) → Nat → Prop
+  | [], hi => lo ≤ hi
+  | (s, e) :: rest, hi => lo ≤ s ∧ s < e ∧ Chain e rest hi
+
+theorem Chain.le {lo hi : Nat} {ms : List (Nat × Nat)} (h : Chain lo ms hi) : lo ≤ hi := by
+  induction ms generalizing lo with
+  | nil => exact h
+  | cons p rest ih =>
+    obtain ⟨s, e⟩ := p
+    have := ih h.2.2
+    have := h.1; have := h.2.1
+    omega
+
+private theorem spaceMatches_chain (u : UEnv) (t : List Char) (i : Nat) :
+    Chain i (spaceMatches u t i none) (i + t.length) ∧
+    ∀ st, st < i → ∃ e rest, spaceMatches u t i (some st) = (st, e) :: rest ∧ i ≤ e ∧
+      Chain e rest (i + t.length) := by
+  induction t generalizing i with
+  | nil =>
+    refine ⟨by simp [spaceMatches, Chain], fun st hst => ⟨i, [], by simp [spaceMatches], Nat.le_refl _, ?_⟩⟩
+    simp [Chain]
+  | cons c rest ih =>
+    have hlen : i + (c :: rest).length = i + 1 + rest.length := by simp; omega
+    rw [hlen]
+    have ih1 := ih (i + 1)
+    by_cases hsp : u.isSpace c
+    · constructor
+      · unfold spaceMatches
+        rw [if_pos hsp]
+        obtain ⟨e, r, h1, h2, h3⟩ := ih1.2 i (by omega)
+        simp only [Option.getD_none]
+        rw [h1]
+        exact ⟨Nat.le_refl _, by omega, h3⟩
+      · intro st hst
+        unfold spaceMatches
+        rw [if_pos hsp]
+        obtain ⟨e, r, h1, h2, h3⟩ := ih1.2 st (by omega)
+        simp only [Option.getD_some]
+        exact ⟨e, r, h1, by omega, h3⟩
+    · constructor
+      · unfold spaceMatches
+        rw [if_neg hsp]
+        have := ih1.1
+        -- Chain (i+1) ms hi → Chain i ms hi
+        revert this
+        generalize spaceMatches u rest (i + 1) none = ms
+        intro h
+        cases ms with
+        | nil => simp [Chain] at h ⊢; omega
+        | cons p ps => obtain ⟨s, e⟩ := p; exact ⟨by have := h.1; omega, h.2.1, h.2.2⟩
+      · intro st hst
+        unfold spaceMatches
+        rw [if_neg hsp]
+        refine ⟨i, _, rfl, Nat.le_refl _, ?_⟩
+        have := ih1.1
+        revert this
+        generalize spaceMatches u rest (i + 1) none = ms
+        intro h
+        cases ms with
+        | nil => simp [Chain] at h ⊢; omega
+        | cons p ps => obtain ⟨s, e⟩ := p; exact ⟨by have := h.1; omega, h.2.1, h.2.2⟩
+
+theorem Chain.zip_bounds {lo n : Nat} {ms : List (Nat × Nat)} (h : Chain lo ms n) :
+    ∀ p ∈ List.zip (lo :: ms.map Prod.snd) (ms.map Prod.fst ++ [n]), p.1 ≤ p.2 ∧ p.2 ≤ n := by
+  induction ms generalizing lo with
+  | nil => intro p hp; simp at hp; subst hp; exact ⟨h, Nat.le_refl _⟩
+  | cons q rest ih =>
+    obtain ⟨s, e⟩ := q
+    intro p hp
+    simp only [List.map_cons, List.cons_append, List.zip_cons_cons, List.mem_cons] at hp
+    rcases hp with rfl | hp
+    · have := h.2.2.le
+      exact ⟨h.1, by have := h.2.1; omega⟩
+    · exact ih h.2.2 p hp
+
+/-- every extracted word is non-empty -/
+private theorem linesplitWords_pos (u : UEnv) (f : FmtStr) :
+    ∀ w ∈ linesplitWords f (spaceMatches u (text f) 0 none), 0 < len w := by
+  intro w hw
+  unfold linesplitWords at hw
+  obtain ⟨p, hp, rfl⟩ := List.mem_map.mp hw
+  have hp' := List.mem_filter.mp hp
+  have hch := (spaceMatches_chain u (text f) 0).1
+  rw [Nat.zero_add, text_length] at hch
+  have := hch.zip_bounds p hp'.1
+  have hne : p.1 ≠ p.2 := by simpa using hp'.2
+  rw [len_getslice]
+  omega
+
+private theorem getslice_ne_nil (f : FmtStr) (a b : Nat) : getslice f a b ≠ [] := by
+  unfold getslice
+  simp only []
+  by_cases h : (getitemLoop a b 0 f).isEmpty
+  · rw [if_pos h]; simp [emptyFmt]
+  · rw [if_neg h]; intro h2; rw [h2] at h; simp at h
+
+private theorem sharedAtts_ok {f : FmtStr} (h : f ≠ []) : ∃ a, sharedAtts f = .ok a := by
+  cases f with
+  | nil => exact absurd rfl h
+  | cons c rest => exact ⟨_, rfl⟩
+
+private theorem wordToLines_ok {columns : Nat} (hc : 1 ≤ columns) (word : FmtStr) (hw : 0 < len word) :
+    ∃ ls, wordToLines columns word = .ok ls ∧ ls ≠ [] := by
+  unfold wordToLines
+  rw [if_neg (by omega)]
+  refine ⟨_, rfl, ?_⟩
+  have h1 : (0 : Int) ≤ ((len word : Nat) : Int) - 1 := by omega
+  have h2 : (0 : Int) ≤ (((len word : Nat) : Int) - 1) / (columns : Int) := Int.ediv_nonneg h1 (by omega)
+  intro h
+  have := congrArg List.length h
+  simp at this
+  omega
+
+private theorem linesplitLoop_ok (columns : Nat) (hc : 1 ≤ columns) (pairs : List (FmtStr × FmtStr))
+    (lines : List FmtStr) (hl : lines ≠ [])
+    (hp : ∀ p ∈ pairs, 0 < len p.1 ∧ p.2 ≠ []) :
+    ∃ result, linesplitLoop columns lines pairs = .ok result := by
+  induction pairs generalizing lines with
+  | nil => exact ⟨lines, rfl⟩
+  | cons p rest ih =>
+    obtain ⟨word, space⟩ := p
+    have ⟨hw, hs⟩ := hp (word, space) (by simp)
+    have hrest : ∀ p ∈ rest, 0 < len p.1 ∧ p.2 ≠ [] := fun p h => hp p (by simp [h])
+    unfold linesplitLoop
+    cases hlast : lines.getLast? with
+    | none => simp at hlast; exact absurd hlast hl
+    | some last =>
+      simp only []
+      by_cases hfit : len last + len word < columns
+      · rw [if_pos hfit]
+        obtain ⟨a, ha⟩ := sharedAtts_ok hs
+        rw [ha]
+        simp only [bind, Except.bind]
+        exact ih _ (by simp) hrest
+      · rw [if_neg hfit]
+        obtain ⟨ls, h1, h2⟩ := wordToLines_ok hc word hw
+        rw [h1]
+        simp only [bind, Except.bind]
+        exact ih _ (by simp [hl]) hrest
+
+/-- `linesplit` raises nothing for `columns ≥ 1` (whatever the Unicode environment and the run layout). -/
+theorem C16_total_partial (u : UEnv) (f : FmtStr) (columns : Nat) (hc : 1 ≤ columns) :
+    ∃ lines, linesplit u f columns = .ok lines := by
+  unfold linesplit
+  simp only []
+  have hpos := linesplitWords_pos u f
+  cases hw : linesplitWords f (spaceMatches u (text f) 0 none) with
+  | nil => exact ⟨[], rfl⟩
+  | cons w0 ws =>
+    rw [hw] at hpos
+    simp only []
+    obtain ⟨ls, h1, h2⟩ := wordToLines_ok hc w0 (hpos w0 (by simp))
+    rw [h1]
+    simp only [bind, Except.bind]
+    apply linesplitLoop_ok columns hc _ ls h2
+    intro p hp
+    have h3 := List.of_mem_zip hp
+    refine ⟨hpos p.1 (by simp [h3.1]), ?_⟩
+    have := h3.2
+    unfold linesplitSpaces at this
+    obtain ⟨m, _, hm⟩ := List.mem_map.mp this
+    rw [← hm]
+    exact getslice_ne_nil _ _ _
+
+
+private theorem spaceMatches_allspace (u : UEnv) (t : List Char) (i : Nat) (h : ∀ c ∈ t, u.isSpace c = true) :
+    (∀ st, spaceMatches u t i (some st) = [(st, i + t.length)]) ∧
+    (spaceMatches u t i none = if t = [] then [] else [(i, i + t.length)]) := by
+  induction t generalizing i with
+  | nil => simp [spaceMatches]
+  | cons c rest ih =>
+    have hc := h c (by simp)
+    have ih1 := ih (i + 1) (fun d hd => h d (by simp [hd]))
+    have e : i + 1 + rest.length = i + (c :: rest).length := by simp; omega
+    constructor
+    · intro st
+      unfold spaceMatches
+      rw [if_pos hc]
+      simp only [Option.getD_some]
+      rw [ih1.1 st, e]
+    · unfold spaceMatches
+      rw [if_pos hc]
+      simp only [Option.getD_none]
+      rw [ih1.1 i, e]
+      simp
+
+/-- Text without a word (empty, or whitespace only) gives no lines - for every `columns`, no exception. -/
+theorem C16_wordless_partial (u : UEnv) (f : FmtStr) (columns : Nat) (h : ∀ c ∈ text f, u.isSpace c = true) :
+    linesplit u f columns = .ok [] := by
+  have hm := (spaceMatches_allspace u (text f) 0 h).2
+  have hw : linesplitWords f (spaceMatches u (text f) 0 none) = [] := by
+    rw [hm]
+    unfold linesplitWords
+    by_cases he : text f = []
+    · rw [if_pos he]
+      have : len f = 0 := by rw [← text_length, he]; rfl
+      simp [this]
+    · rw [if_neg he]
+      simp [text_length]
+  unfold linesplit
+  simp only [hw]
+
+
+/-! ### non-vacuity / examples (whitespace of three kinds, formatting changing inside a gap) -/
+
+example : (match linesplit exEnv [⟨[' ', 'a', 'b', ' '], {fg := some 1, bold := some true}⟩,
+      ⟨['\t', 'c', '\n'], {fg := some 1}⟩, ⟨['d', 'e', 'f', 'g'], {}⟩] 3 with
+    | .ok ls => ls == [[⟨['a', 'b'], {fg := some 1, bold := some true}⟩],
+                       [⟨['c'], {fg := some 1}⟩], [⟨['d', 'e', 'f'], {}⟩], [⟨['g'], {}⟩]]
+    | _ => false) = true := by decide +kernel
+
+example : (match linesplit exEnv [⟨[' ', 'a', 'b', ' '], {fg := some 1, bold := some true}⟩,
+      ⟨['\t', 'c', '\n'], {fg := some 1}⟩, ⟨['d'], {}⟩] 4 with
+    | .ok ls => ls == [[⟨['a', 'b'], {fg := some 1, bold := some true}⟩, ⟨[' '], {fg := some 1}⟩, ⟨['c'], {fg := some 1}⟩],
+                       [⟨['d'], {}⟩]]
+    | _ => false) = true := by decide +kernel
+
+example : specWords exEnv (cells [⟨[' ', 'a', ' '], {}⟩, ⟨['\t', 'c', '\n'], {fg := some 1}⟩]) [] []
+    = [([(' ', {})], [('a', {})]), ([(' ', {}), ('\t', {fg := some 1})], [('c', {fg := some 1})])] := by
+  decide +kernel
+
 end Curtsies
